@@ -43,6 +43,7 @@ const (
 	FamBlocks
 	FamWide
 	FamManyFields // 130..300 field names: two-byte field ids
+	FamTerms      // 1..4 documents with 60..600 distinct terms sharing prefixes and suffixes: a real FST
 	FamBig        // a few documents with large incompressible stored values: data section > 1 MiB
 	FamHuge       // > 65535 documents: document numbers span several roaring containers
 	FamMid        // 1..28 documents focused on one posting list (multi-chunk under fixed sizes), plus unique terms
@@ -212,6 +213,9 @@ func GenLeaf(t *rapid.T, ctx *Ctx, sc *Scenario, cfg CaseCfg, label string) (*Se
 			}
 		}
 		b, desc = p.Batch(sc), p.String()
+	case FamTerms:
+		b = manyTermsBatch(t, label)
+		desc = fmt.Sprintf("many-terms{%d docs x %d terms}", len(b), len(b[0].Fields[0].Terms))
 	case FamBig:
 		b = GenBatchBig(t, sc)
 		desc = fmt.Sprintf("big{%d docs, %d stored bytes each}", len(b), len(b[0].Fields[len(b[0].Fields)-1].Value))
